@@ -1,6 +1,7 @@
 (* C08 -- a note is a one-way flag set by notify, by its deadline, or by an ancestor.
-   Theorems about Model/NoteModel.v (internal/note.c as of the repairs of F4, F7, F8, F9; any number of threads, any
-   tree of notes, any deadlines, any schedule, any clock).  Statements only; proofs in Proof/NoteProof.v.
+   Theorems about Model/NoteModel.v (internal/note.c as of the repairs of F4, F7, F8, F9, F12: commit 0ed6400; any number of
+   threads, any tree of notes, any deadlines, any schedule, any clock).  Statements only; proofs in Proof/NoteProof.v ..
+   NoteProof6.v.
 
    Vocabulary (Model/NoteModel.v):  [flag (nt w n)] is the `notified` word of note n;  [obs_notified w n] is what every
    observer computes from NOTIFIED_TIME: the word is set, or the expiry time is not after the epoch (a note created with
@@ -12,7 +13,7 @@
 From NsyncBase Require Import CSem.
 From NsyncGen Require Import Consts Sites.
 From NsyncModel Require Import NoteModel.
-From NsyncProof Require Import NoteProof.
+From NsyncProof Require Import NoteProof NoteProof2 NoteProof3 NoteProof4 NoteProof5 NoteProof6.
 From Coq Require Import List ZArith.
 Import ListNotations.
 Local Open Scope Z_scope.
@@ -45,8 +46,140 @@ Theorem C08_local : forall w t c n m, reachable w ->
   cpath w m n.
 Proof. intros w t c n m R. exact (local_step w t c n m (InvA_reachable w R)). Qed.
 
+(* ---- expiry (note.c as of 0ed6400, the repair of F12).
+        [uc w n]: n is still inside the nsync_note_new call that creates it (not yet returned to anybody);
+        [espec w n]: abs_deadline if the parent is NULL, else min (T, abs_deadline) where T is the parent's notification time
+        at the moment nsync_note_new compared with it under the parent's lock: zero if the parent's `notified` word was set
+        then (ghost cpz -- the word is set by an explicit nsync_note_notify, by a passed deadline, or through an ancestor),
+        and the parent's own expiry time otherwise (a completed note's expiry never changes: C08_expiry_stable, so "the
+        parent's expiry now" is "the parent's expiry then");
+        [dl_min w n n]: the minimum of the abs_deadline arguments from n up its creation path to the root;
+        [path_min w n n] (Model/NoteModel.v): the same minimum, cut off at the first parent that was already notified when its
+        child was created, which counts as zero;  [tle a b]: nsync_time_cmp (a, b) <= 0.   All in Proof/NoteProof5.v.
+        [broken (gh w) = false]: the client has kept the contract of DESIGN 4/C09 so far (needed only to know that nobody
+        passes a note still under construction as a parent).
+
+        C08_expiry holds for EVERY completed note.  Before 0ed6400 a note whose own abs_deadline had already passed when it
+        was created did not look at its parent at all and kept abs_deadline (the former C08_expiry_refuted, first witness;
+        F12); C08_expiry_at_creation is the step that changed: it now makes the comparison whatever `expired` is. ---- *)
+Theorem C08_expiry : forall w n, reachable w -> broken (gh w) = false -> (n < nnext w)%nat -> ~ uc w n ->
+  expiry (nt w n) = espec w n.
+Proof. exact expiry_spec. Qed.
+(* the one step that writes it: nsync_note_new (parent p, abs_deadline dl) at the load of p->notified under p's lock, for
+   either value e of `expired`: the new note's expiry becomes min (NOTIFIED_TIME (p), dl), the ghost records whether p's
+   word was set, and the note is linked under p iff it was not expired and p is not notified *)
+Theorem C08_expiry_at_creation : forall w t c par dl n p e rest,
+  reachable w -> stk w t = ANew par dl (W3 n p e) :: rest ->
+  let w' := fst (step1 w t c) in
+  let pt := notified_time w p (flag (nt w p)) in
+  expiry (nt w' n) = tmin pt dl /\ cdl (nt w' n) = dl /\ cpar (nt w' n) = Some p /\
+  cpz (nt w' n) = negb (flag (nt w p) =? 0) /\
+  parent (nt w' n) = (if negb e && tpos pt then Some p else parent (nt w n)).
+Proof. exact new_compare_step. Qed.
+Theorem C08_expiry_stable : forall w a n, (n < nnext w)%nat -> ~ uc w n -> expiry (nt (exec w a) n) = expiry (nt w n).
+Proof. exact expiry_stable. Qed.
+(* the same as a formula over the whole creation path *)
+Theorem C08_expiry_path : forall w, reachable w -> broken (gh w) = false ->
+  forall n, (n < nnext w)%nat -> ~ uc w n -> expiry (nt w n) = path_min w n n.
+Proof. exact expiry_path. Qed.
+
+(* Corollary: the expiry of a note created under parent p is never later than p's expiry -- in every reachable state in
+   which the note is complete, i.e. at any later time (in the model a note's expiry field survives nsync_note_free and
+   ids are not reused, so p need not even be live; on the implementation nsync_note_expiry (p) may of course only be
+   asked while p is not freed).  One exception, which cannot arise unless some abs_deadline on the path lies BEFORE THE
+   EPOCH (C08_expiry_monotone_epoch): a parent whose `notified` word is set counts as time zero, and zero is later than a
+   negative expiry.  Witness of the exception (C08_expiry_monotone_plain_refuted): clock 20;
+   a = new (NULL, -5); b = new (a, 10) [expired at creation: word set, expiry min (10, -5) = -5]; c = new (b, no deadline)
+   gives expiry (c) = 0 > expiry (b) = -5.  All three are notified, so no observer can tell. *)
+Theorem C08_expiry_monotone : forall w n p, reachable w -> broken (gh w) = false -> (n < nnext w)%nat -> ~ uc w n ->
+  cpar (nt w n) = Some p ->
+  tle (expiry (nt w n)) (expiry (nt w p)) \/
+  (cpz (nt w n) = true /\ tle (expiry (nt w n)) tzero /\ tlt (expiry (nt w p)) tzero = true).
+Proof. exact expiry_monotone. Qed.
+Theorem C08_expiry_monotone_epoch : forall w n p, reachable w -> broken (gh w) = false -> (n < nnext w)%nat -> ~ uc w n ->
+  cpar (nt w n) = Some p ->
+  (forall a d, cpath w p a -> cdl (nt w a) = Some d -> 0 <= d) ->
+  tle (expiry (nt w n)) (expiry (nt w p)).
+Proof. exact expiry_monotone_epoch. Qed.
+Definition C08_expiry_monotone_plain : Prop := forall w n p, reachable w -> broken (gh w) = false -> (n < nnext w)%nat -> ~ uc w n ->
+  cpar (nt w n) = Some p -> tle (expiry (nt w n)) (expiry (nt w p)).
+Theorem C08_expiry_monotone_plain_refuted : ~ C08_expiry_monotone_plain.
+Proof. exact expiry_monotone_plain_refuted. Qed.
+
+(* The LITERAL reading of properties.jsonl / public/nsync_note.h, "nsync_note_expiry is the minimum of the abs_deadline
+   values on the creation path to the root", is false by design: an ancestor that is already notified when the child is
+   created counts as deadline zero (the header requires a note created under a notified parent to be notified at once).
+   Witness (wit2): a = nsync_note_new (NULL, no deadline); nsync_note_notify (a); b = nsync_note_new (a, 10) gives
+   expiry (b) = 0, the literal minimum is 10.
+   The former first witness (wit1: clock 20; a = new (NULL, 5); b = new (a, 10), both deadlines already passed), which gave
+   expiry (b) = 10 > expiry (a) = 5 before 0ed6400, no longer shows a child expiring later than its parent: the Eval below
+   gives expiry (a) = 5, a's word = 1, expiry (b) = 0 -- a was notified by the deadline check inside its own
+   nsync_note_new, so b takes min (10, NOTIFIED_TIME (a) = 0); the implementation prints the same (scratch program
+   _work/h_note/scen/exp_check.c).  Against the literal formula (5) it is thereby the same case as wit2.  The variant in
+   which a's deadline passes only after a was created (wit1b: clock 0; a = new (NULL, 5); clock := 20; b = new (a, 10);
+   a's word still 0) gave 10 before the repair and now gives expiry (b) = 5 = the literal minimum. *)
+Definition C08_expiry_literal : Prop :=
+  forall w n, reachable w -> broken (gh w) = false -> (n < nnext w)%nat -> ~ uc w n -> expiry (nt w n) = dl_min w n n.
+Theorem C08_expiry_literal_refuted : ~ C08_expiry_literal.
+Proof. exact expiry_literal_refuted. Qed.
+Eval vm_compute in (expiry (nt wit1 0), flag (nt wit1 0), expiry (nt wit1 1), dl_min wit1 1 1).
+  (* = (Some 5, 1, Some 0, Some 5)      -- before 0ed6400: (Some 5, 1, Some 10, Some 5) *)
+Eval vm_compute in (expiry (nt wit1b 0), flag (nt wit1b 0), expiry (nt wit1b 1), dl_min wit1b 1 1).
+  (* = (Some 5, 0, Some 5, Some 5)      -- before 0ed6400: (Some 5, 0, Some 10, Some 5) *)
+Eval vm_compute in (expiry (nt wit2 1), dl_min wit2 1 1, cpz (nt wit2 1)).
+  (* = (Some 0, Some 10, true) *)
+(* what holds of the literal minimum: the expiry time IS that minimum, or the note is already notified *)
+Theorem C08_expiry_partial : forall w n, reachable w -> broken (gh w) = false -> (n < nnext w)%nat -> ~ uc w n ->
+  expiry (nt w n) = dl_min w n n \/ obs_notified w n.
+Proof. exact expiry_min. Qed.
+
+(* ---- descendants.  [notifying w p]: some thread is inside note_notify_child (p, _);  [quiet w]: no thread is inside
+        notify(), note_notify_child() or nsync_note_free() at all (both in Proof/NoteProof6.v).
+
+        Proved, for every client (no contract needed): once no note_notify_child (p) is running, a note p whose
+        `notified` word is set has no children left -- each was notified and unlinked by the loop of lines 41-56, or
+        is notified by its own nsync_note_free / adopted elsewhere -- and no waiter left: every thread that was
+        waiting on p has been dequeued and posted.  With the contract, a note still linked under a notified parent
+        therefore has a note_notify_child of that parent in progress (C08_descendants_linked). ---- *)
+Theorem C08_descendants_partial : forall w p, reachable w -> (p < nnext w)%nat -> flag (nt w p) <> 0 -> ~ notifying w p ->
+  children (nt w p) = [] /\ waiters (nt w p) = [].
+Proof. exact descendants_local. Qed.
+Theorem C08_descendants_linked : forall w m p, reachable w -> broken (gh w) = false -> (m < nnext w)%nat ->
+  parent (nt w m) = Some p -> flag (nt w p) <> 0 -> notifying w p.
+Proof.
+  intros w m p R B Hm Hp Hf. destruct (InvC_reachable w R) as (I & _ & _ & U). destruct (iu_tree _ (U B)) as (T1 & _ & _ & T0).
+  assert (p < nnext w)%nat as Hpl by (pose proof (T0 m p Hm Hp); lia).
+  destruct (InvD_reachable w R) as [D1 _].
+  destruct (D1 p Hpl Hf) as (t & par & s & Hin & _); [intros E; pose proof (T1 m p Hm Hp) as H; rewrite E in H; destruct H|].
+  exists t, par, s. exact Hin.
+Qed.
+(* The statement over CREATION-time descendants (the ghost path cpath, which survives the freeing of intermediate
+   notes): when nothing is in progress, every live completed note below a notified one is notified.  NOT proved.
+   Missing piece: the invariant that ties the creation path to the current tree across adoptions, namely
+     "a live completed note m with flag 0 and positive expiry that has a creation-ancestor a with flag a <> 0 is
+      currently linked (parent m = Some r) under a note r with cpath r a",
+   whose preservation by the re-parenting step of nsync_note_free (F7, `adopt`) needs in turn that a note with
+   children has a positive expiry and that no note_notify_child (n) frame exists while nsync_note_free (n) is past
+   its mu_wait (from disc_ok).  Evidence instead of proof: the exhaustive explorer _work/h_note/explore/dfs.ml checks
+   the obs_notified part of this statement (check D4; the waiters part at terminal states) in every reachable quiet state of 18 hand-written and 20000 random programs
+   (9.1M states): no violation. *)
+Definition C08_descendants_full : Prop :=
+  forall w a m, reachable w -> broken (gh w) = false -> quiet w -> (m < nnext w)%nat -> ~ uc w m -> ~ In m (freed (gh w)) ->
+    cpath w m a -> flag (nt w a) <> 0 -> obs_notified w m /\ waiters (nt w m) = [].
+
 Print Assumptions C08_monotone.
 Print Assumptions C08_sound.
 Print Assumptions C08_sound_obs.
 Print Assumptions C08_notify_post.
 Print Assumptions C08_local.
+Print Assumptions C08_expiry.
+Print Assumptions C08_expiry_at_creation.
+Print Assumptions C08_expiry_stable.
+Print Assumptions C08_expiry_path.
+Print Assumptions C08_expiry_monotone.
+Print Assumptions C08_expiry_monotone_epoch.
+Print Assumptions C08_expiry_monotone_plain_refuted.
+Print Assumptions C08_expiry_literal_refuted.
+Print Assumptions C08_expiry_partial.
+Print Assumptions C08_descendants_partial.
+Print Assumptions C08_descendants_linked.
